@@ -189,7 +189,7 @@ def r1_coverage(repo, report):
     report.floor("C07.R1", "single-adapter classes", len(classes), 8)
     for cname in classes:
         cls = repo.cls(cname)
-        has_force = any("_force_anywhere" in src(m) for c in repo.mro(cname) for m in c.methods.values() if m.name in ("_aligner", "_kmer_finder"))
+        has_force = "_force_anywhere" in src(repo.need_method(cname, "_aligner")[1])
         for force in ((False, True) if has_force else (False,)):
             try:
                 cfg = _class_config(repo, cname, force)
